@@ -109,7 +109,7 @@ func loadRepo(patterns []string, overlay map[string][]byte) (*loaded, error) {
 		Mode:    packages.LoadAllSyntax,
 		Dir:     repoDir,
 		Overlay: overlay,
-		Env:     append(os.Environ(), "GOFLAGS=-mod=mod", "GOPROXY=off"),
+		Env:     append(os.Environ(), "GOFLAGS=-mod=readonly", "GOPROXY=off"),
 	}
 	pkgs, err := packages.Load(cfg, patterns...)
 	if err != nil {
